@@ -126,7 +126,8 @@ class C11(Prop):
             x = pick(cands, case["which"])
             made = 0
             if x is not None:
-                for recurse in (1, 0):
+                # cJSON_bool is an int and the header says "with recurse != 0": every non-zero value asks for a recursive copy
+                for recurse in ((1, 0), (2, 0), (-1, 0), (256, 0), (1, 0))[case["which"] % 5]:
                     if len(w.roots) >= 14:
                         break
                     p = lib.cJSON_Duplicate(x.ptr, recurse)
